@@ -31,6 +31,9 @@ pub fn caps_of(name: &str) -> Option<Capabilities> {
         "none" => None,
         "nof64" => Some(Capabilities::all() - Capabilities::FLOAT64),
         "empty" => Some(Capabilities::empty()),
+        // "all-PUSH_CONSTANT": every capability but the named one; "only-FLOAT64": just the named one
+        n if n.starts_with("all-") => Some(Capabilities::all() - Capabilities::from_name(&n[4..]).expect("capability name")),
+        n if n.starts_with("only-") => Some(Capabilities::from_name(&n[5..]).expect("capability name")),
         _ => Some(Capabilities::all()),
     }
 }
